@@ -548,7 +548,8 @@ func cmdC03(args []string) {
 	defer out.Close()
 	sum := Summary{}
 	for _, c := range cases {
-		sum.Inc("ops", c03Run(out, c))
+		c := c
+		deadline(out, caseDeadline, func() { sum.Inc("ops", c03Run(out, c)) })
 		out.tr++
 	}
 	sum["events"] = out.n
